@@ -13,7 +13,10 @@ The gate is installed on the queue object of every SyncLogger after construction
 / `put` wrapping the original bound methods; no source change, works for any queue class).
 
 Events (same vocabulary as coq/C05/SyncThreads.v `sev`):
-  ('op', i, 'connect'|'disconnect'|'next'|'get'|'lost2')   ('sample', cfg, k)   ('lostall',)
+  ('op', i, 'connect'|'disconnect'|'next'|'get'|'lost2')   ('sample', cfg, k)   ('lostall',)   ('linkup',)
+  ('op', i, 'cbegin'|'ccfg'|'cend')   connect() of logger i step by step, executed by a real thread that is
+      paused before its first add_config and after every config.start();  ('cfglose', i)  = one configuration
+      step during whose CREATE send the driver reports the link loss (disconnected fires inside send_packet)
 `Run.apply(ev)` returns [observation code] + state of every logger, as coq/C05/TieEnc.v `enc_sys_run`."""
 import logging
 import queue as _q
@@ -80,6 +83,38 @@ class _Consumer:
                 self.run.report.put(('error', self.idx, repr(e)))
 
 
+class _Connector:
+    """the user thread inside SyncLogger.connect(), paused at the gates"""
+
+    def __init__(self, run, idx, sl):
+        self.run, self.idx, self.sl = run, idx, sl
+        self.go = _q.Queue()
+        self.active = False
+        self.first = False
+        self.pos = 0
+        self.thread = None
+
+    def start(self):
+        self.active, self.first, self.pos = True, True, 0
+        self.thread = threading.Thread(target=self.loop, daemon=True, name='c05-connect-%d' % self.idx)
+        self.thread.start()
+
+    def gate(self, tag):
+        self.run.report.put(('cgate', self.idx, tag))
+        if self.go.get() == 'abort':
+            raise _Abort()
+
+    def loop(self):
+        try:
+            self.sl.connect()
+            self.run.report.put(('cdone', self.idx, 0))
+        except _Abort:
+            self.run.report.put(('aborted', self.idx))
+        except Exception as e:  # noqa
+            self.run.report.put(('cdone', self.idx, 3 if str(e) == 'Already connected' else
+                                 (5 if isinstance(e, AttributeError) else 98)))
+
+
 class Run:
     """loggers: list of lists of config numbers, e.g. [[0], [1, 2]]; `foreign`: config numbers added to Log
     and started without any SyncLogger; every config has one uint32 variable named name_str(config)."""
@@ -114,12 +149,65 @@ class Run:
             self.sls.append(sl)
         for i, sl in enumerate(self.sls):
             self.consumers.append(_Consumer(self, i, sl))
+        self.connectors = [_Connector(self, i, sl) for i, sl in enumerate(self.sls)]
+        self.lose_in_send = None
+        self.lost_triggered = False
+        log = self.im.log
+        orig_add = log.add_config
+
+        def hooked_add(cfg):
+            for cn in self.connectors:
+                if cn.thread is threading.current_thread() and cn.first:
+                    cn.first = False
+                    cn.gate('begun')
+            return orig_add(cfg)
+        log.add_config = hooked_add
+        for l in self.own:
+            for c in l:
+                self._hook_start(self.cfgs[c])
+        cf = self.im.cf
+        orig_send = cf.send_packet
+
+        def hooked_send(pk, expected_reply=(), resend=False, timeout=0.2):
+            orig_send(pk, expected_reply, resend, timeout)
+            i = self.lose_in_send
+            if i is not None and self.connectors[i].thread is threading.current_thread() \
+                    and pk.port == 5 and pk.channel == 1 and len(pk.data) and pk.data[0] in (0, 6):
+                self.lose_in_send = None
+                self.lost_triggered = True
+                self._lostall()              # the driver reports the link error from the sending thread
+        cf.send_packet = hooked_send
+
+    def _hook_start(self, cfg):
+        orig = cfg.start
+
+        def hooked():
+            orig()
+            for cn in self.connectors:
+                if cn.thread is threading.current_thread():
+                    cn.gate('cfgdone')
+        cfg.start = hooked
+
+    def _lostall(self):
+        self.im.cf.link = None
+        self.defer = True
+        try:
+            self.im.cf.disconnected.call('uri')
+        finally:
+            self.defer = False
 
     def _session(self):
         im = self.im
         im.do(['refresh', True])
         im.do(['pkt', 1, [5, 0, 0]])
         im.do(['settoc', self.toc])
+
+    def _resession(self):
+        self._session()
+        for f in self.foreign:
+            self.im.log.add_config(self.cfgs[f])
+            self.cfgs[f].start()
+        self._acks()
 
     def _acks(self):
         """the device acknowledges everything that was sent to the log settings channel"""
@@ -133,6 +221,10 @@ class Run:
         del im.cf.sent[:]
 
     def close(self):
+        for cn in getattr(self, 'connectors', []):
+            if cn.active:
+                cn.go.put('abort')
+                cn.thread.join(0.5)
         for c in self.consumers:
             if c.inget:
                 c.go.put('abort')
@@ -175,32 +267,88 @@ class Run:
         k = ev[0]
         if k == 'sample':
             cfg = self.cfgs[ev[1]]
-            if cfg.cf is None:
-                return 0                      # never added: the device does not know such a block
+            if not any(b is cfg for b in im.log.log_blocks):
+                return 0                      # not in log_blocks: the device does not know such a block
             im.do(['pkt', 2, [cfg.id, 1, 2, 3] + list(struct.pack('<I', ev[2]))])
             return 0
         if k == 'lostall':
-            im.cf.link = None
-            self.defer = True
-            try:
-                im.cf.disconnected.call('uri')
-            finally:
-                self.defer = False
+            self._lostall()
+            return 0
+        if k == 'linkup':
+            if im.cf.link is None:
+                self._resession()
+            return 0
+        if k == 'cfglose':
+            i = ev[1]
+            cn = self.connectors[i]
+            if not cn.active or cn.pos >= len(self.own[i]):
+                self._lostall()
+                return 4
+            self.lost_triggered = False
+            self.lose_in_send = i if im.cf.link is not None else None
+            cn.go.put('go')
+            r = self._wait()
+            self.lose_in_send = None
+            if r[0] == 'cdone':
+                cn.active = False
+                if not self.lost_triggered:
+                    self._lostall()
+                del im.cf.sent[:]
+                return r[2]
+            if r[0] != 'cgate':
+                return 98
+            cn.pos += 1
+            if not self.lost_triggered:
+                self._lostall()              # nothing was sent (link already down): the loss follows the step
+            del im.cf.sent[:]
             return 0
         i, op = ev[1], ev[2]
         sl = self.sls[i]
         c = self.consumers[i]
+        cn = self.connectors[i]
+        if op in ('connect', 'disconnect', 'cbegin') and cn.active:
+            return 4                          # the user thread of this logger is inside connect()
+        if op == 'cbegin':
+            cn.start()
+            r = self._wait()
+            if r[0] == 'cgate':
+                return 0
+            cn.active = False
+            return r[2] if r[0] == 'cdone' else 98
+        if op == 'ccfg':
+            if not cn.active or cn.pos >= len(self.own[i]):
+                return 4
+            cn.go.put('go')
+            r = self._wait()
+            if r[0] == 'cdone':
+                cn.active = False             # connect() raised in this turn of its loop
+                del im.cf.sent[:]
+                return r[2]
+            if r[0] != 'cgate':
+                return 98
+            cn.pos += 1
+            if im.cf.link is not None:
+                self._acks()
+            else:
+                del im.cf.sent[:]
+            return 0
+        if op == 'cend':
+            if not cn.active or cn.pos < len(self.own[i]):
+                return 4
+            cn.go.put('go')
+            r = self._wait()
+            cn.active = False
+            return 0 if r[0] == 'cdone' and r[2] == 0 else 98
         if op == 'connect':
             try:
-                if im.cf.link is None:
-                    self._session()
-                    for f in self.foreign:
-                        im.log.add_config(self.cfgs[f])
-                        self.cfgs[f].start()
                 sl.connect()
             except Exception as e:  # noqa
-                return 3 if str(e) == 'Already connected' else 98
-            self._acks()
+                del im.cf.sent[:]
+                return 3 if str(e) == 'Already connected' else (5 if isinstance(e, AttributeError) else 98)
+            if im.cf.link is not None:
+                self._acks()
+            else:
+                del im.cf.sent[:]
             return 0
         if op == 'disconnect':
             sl.disconnect()
@@ -235,7 +383,13 @@ class Run:
                     q.append(1)
                 else:
                     q.append(10 + list(item[1].values())[0])
-            out += [int(sl._is_connected), int(self.consumers[i].inget), self.pending[i], len(q)] + q
+            cn = self.connectors[i]
+            reg = int(sl._disconnected in self.im.cf.disconnected.callbacks)
+            dreg = [int(sl._log_callback in self.cfgs[c].data_received_cb.callbacks) for c in self.own[i]]
+            out += [int(sl._is_connected), int(self.consumers[i].inget), self.pending[i], reg,
+                    cn.pos if cn.active else -1] + dreg + [0 if self.im.cf.link is None else 1] + \
+                [int(self.cfgs[c].cf is not None) for c in self.own[i]] + \
+                [int(any(b is self.cfgs[c] for b in self.im.log.log_blocks)) for c in self.own[i]] + [len(q)] + q
         return out
 
     def apply(self, ev):
@@ -263,7 +417,11 @@ def coq_sev(ev):
         return 'SSampleAll %d %d' % (ev[1], ev[2])
     if k == 'lostall':
         return 'SLostAll'
-    op = {'connect': 'TConnect', 'disconnect': 'TDisconnect', 'next': 'TNext', 'get': 'TGet', 'lost2': 'TLost2'}[ev[2]]
+    if k == 'linkup':
+        return 'SLinkUpAll'
+    if k == 'cfglose':
+        return 'SCfgLose %d' % ev[1]
+    op = {'cbegin': 'TConnBegin', 'ccfg': 'TConnCfg', 'cend': 'TConnEnd', 'connect': 'TConnect', 'disconnect': 'TDisconnect', 'next': 'TNext', 'get': 'TGet', 'lost2': 'TLost2'}[ev[2]]
     return 'SOp %d %s' % (ev[1], op)
 
 
